@@ -466,7 +466,10 @@ Example fuel_mono_ex :
   roots_lookup 30 ex_host_roots m_get (S2B "a.ex.com") (S2B "/u/42/x") false [] [] = LOutOfFuel /\
   lbp 60 (S2B "/a/foo/c") false PWalk (init_st ex_path_node [] []) <> LOutOfFuel /\
   lbd 60 (S2B "a.ex.com") (S2B "/u/42/x") false DWalk (init_st ex_host_node [] []) <> LOutOfFuel.
-Proof. repeat split; vm_compute; congruence. Qed.
+Proof.
+  split; [vm_compute; discriminate|]. split; [vm_compute; reflexivity|].
+  split; vm_compute; discriminate.
+Qed.
 
 Definition ex_strip (h : bytes) : bytes := h.                 (* hosts without port in the examples *)
 Definition ex_split (p : bytes) : bytes * bytes :=              (* SplitHostPath on the example pattern *)
@@ -482,7 +485,11 @@ Example entry_points_agree_ex :
     exists n',
     Router_Route ex_fuel ex_strip ex_split ex_host_roots m_get (S2B "{sub}.ex.com/u/{id}/x") [] = EP (Some (n', false)) /\
     nroute n' = nroute n.
-Proof. eexists; repeat split; try (vm_compute; reflexivity). eexists; split; vm_compute; reflexivity. Qed.
+Proof.
+  eexists. split; [vm_compute; reflexivity|]. split; [vm_compute; reflexivity|].
+  split; [vm_compute; reflexivity|]. split; [vm_compute; reflexivity|]. split; [vm_compute; reflexivity|].
+  eexists; split; vm_compute; reflexivity.
+Qed.
 
 (* witness: with GET / registered, Reverse(GET, "", "") is a direct match on the router and a
    trailing-slash match on a transaction *)
